@@ -2,7 +2,7 @@
    Django's Context layer stack, render ids and component_context_cache), deepening C01 / C03 / C05, which are decided
    against the lexically scoped reference renderer S (Core/Sem.v).  Proofs in Core/MechProofs.v.
    Every run also compares M with the implementation and M with S on generated programs (harness/c01m.py). *)
-From DJC Require Import Lib.Base Core.Syntax Core.Sem Core.Mech Core.MechProofs.
+From DJC Require Import Lib.Base Core.Syntax Core.Sem Core.Mech Core.MechProofs Core.MechDjango.
 From DJC Require Gen.C01M.
 From Coq Require Import String.
 Local Open Scope string_scope.
@@ -101,12 +101,26 @@ Print Assumptions unfilled_slot_renders_own_default_mech.
    binders are identifiers that shadow no visible name and no internal key; one name for the slots flagged `default`
    per template.
    _partial - NOT covered by the proof (covered by the per-run comparison M vs S and M vs implementation only):
-   django mode; {% for %}; {% provide %} / inject; the default= alias ({{ default }} SlotRef); slot tags and is_filled
+   django mode (see mech_refines_sem_django_partial below); {% for %}; {% provide %} / inject; the default= alias ({{ default }} SlotRef); slot tags and is_filled
    tests written inside the body of a component tag (pass-through slots). *)
 Theorem mech_refines_sem_isolated_partial : forall p fuel,
   wf_prog p = true -> mout_of (mrender_prog fuel p) = embed (render_prog fuel p).
 Proof. exact mech_refines_sem_isolated_lemma. Qed.
 Print Assumptions mech_refines_sem_isolated_partial.
+
+(* The same in DJANGO mode (dynamic scoping: a component template also sees what was visible at its tag, fill content
+   runs on the slot's Context with the component key overridden by the fill owner's).
+   wf_prog_django (decidable, Core/Mech.v): django context behaviour, no `only` flag; the node kinds of wf_prog; and
+   no with-variable bound inside the body of a component tag bears the name of a page variable, of a get_context_data
+   variable or of a with-variable bound at template level (pairwise distinct binder names imply this; any other
+   shadowing - recursion included - is allowed, S and M order the layers alike).  That condition is exactly where the
+   mechanism deviates from S otherwise: render_func inserts the variables captured between tag and fill ABOVE the
+   inner component's data layer (C03 class c03-django-fill-variables-inserted-above-inner-component-data).
+   _partial: for / provide / default= alias / pass-through slots / `only` are not covered by the proof. *)
+Theorem mech_refines_sem_django_partial : forall p fuel,
+  wf_prog_django p = true -> mout_of (mrender_prog fuel p) = embed (render_prog fuel p).
+Proof. exact mech_refines_sem_django_lemma. Qed.
+Print Assumptions mech_refines_sem_django_partial.
 
 (* ---------- non-vacuity ---------- *)
 (* a program of the fragment: nested components, a slot nested in another slot's default, a required slot, the default
@@ -140,6 +154,36 @@ Example refinement_premise_satisfiable :
   mout_of (mrender_prog 30 ex_prog) = MOk (s2n "P:{<Vfill:VaV<deepA-default[implicit]False>True>V}").
 Proof. vm_compute. split; reflexivity. Qed.
 
+(* django mode: the inner component reads the outer component's variable e, fill content reads the inner component's d,
+   the page-level fill reads outer's e - dynamic scoping, same in M and S *)
+Definition ex_inner_dj : cdef :=
+  {| c_tpl := [TText (s2n "<"); TOut (EVar (s2n "d")); TOut (EVar (s2n "e"));
+               TSlot (s2n "a") false false [(s2n "k", EVar (s2n "d"))]
+                 [TText (s2n "A-default["); TSlot (s2n "b") true false [] [TText (s2n "B-default")]; TText (s2n "]")];
+               TOut (EFilled (s2n "a")); TText (s2n ">")];
+     c_data := [(s2n "d", DKw (s2n "x"))] |}.
+Definition ex_outer_dj : cdef :=
+  {| c_tpl := [TText (s2n "{");
+               TWith (s2n "w") (EStr (s2n "a"))
+                 [TComp (s2n "inner") [(s2n "x", EVar (s2n "e"))] false
+                    [TWith (s2n "nm") (EVar (s2n "w"))
+                       [TFill (EVar (s2n "nm")) (Some (s2n "sd")) None
+                          [TText (s2n "fill:"); TOut (EDot (s2n "sd") (s2n "k")); TOut (EVar (s2n "nm")); TOut (EVar (s2n "d"));
+                           TComp (s2n "inner") [(s2n "x", EStr (s2n "deep"))] false [TText (s2n "implicit"); TOut (EVar (s2n "d"))]]];
+                     TIf (EVar (s2n "e")) [TFill (EStr (s2n "unused")) None None [TText (s2n "never")]] []]];
+               TSlot (s2n "req") false true [] []; TText (s2n "}")];
+     c_data := [(s2n "e", DKw (s2n "y"))] |}.
+Definition ex_prog_dj : prog :=
+  {| p_lib := [(s2n "outer", ex_outer_dj); (s2n "inner", ex_inner_dj)];
+     p_page := [TText (s2n "P:");
+                TComp (s2n "outer") [(s2n "y", EVar (s2n "p"))] false
+                  [TFill (EStr (s2n "req")) None None [TOut (EVar (s2n "p")); TOut (EVar (s2n "e"))]]];
+     p_ctx := [(s2n "p", VStr (s2n "V"))]; p_mode := Django |}.
+Example django_refinement_premise_satisfiable :
+  wf_prog_django ex_prog_dj = true /\
+  mout_of (mrender_prog 30 ex_prog_dj) = MOk (s2n "P:{<VVfill:VaV<deepVA-default[implicitdeep]False>True>VV}").
+Proof. vm_compute. split; reflexivity. Qed.
+(* the witness below violates exactly the name condition of wf_prog_django *)
 (* M is a model of the CODE: where the implementation deviates from the lexical reference (variable-name collisions),
    M deviates with it.  Django mode: the variables captured between tag and fill are inserted ABOVE the data layer of
    the slot's component, so they shadow it (S: inner data first); recorded class
@@ -151,5 +195,6 @@ Definition ex_collide : prog :=
                (s2n "c", {| c_tpl := [TSlot (s2n "s") false false [] []]; c_data := [(s2n "x", DStr (s2n "inner"))] |})];
      p_page := [TComp (s2n "o") [] false []]; p_ctx := []; p_mode := Django |}.
 Example mechanism_reproduces_layer_order_deviation :
-  mout_of (mrender_prog 30 ex_collide) = MOk (s2n "between") /\ render_prog 30 ex_collide = Ok (s2n "inner").
-Proof. vm_compute. split; reflexivity. Qed.
+  mout_of (mrender_prog 30 ex_collide) = MOk (s2n "between") /\ render_prog 30 ex_collide = Ok (s2n "inner") /\
+  wf_prog_django ex_collide = false.
+Proof. vm_compute. repeat split; reflexivity. Qed.
